@@ -909,7 +909,7 @@ theorem multiBranch_link (F : FetchFn) (e : Envs) (fuel : Nat) (mkids : List Obj
     multiBranch F e fuel false mkids idx (.defn mm mws) M out used =
       .ok (out ++ multiBlock (.defn mm mws) k0 cks, used ++ M.flatMap marksOf) := by
   unfold multiBranch
-  rw [hk0, hfm, List.nil_append]
+  rw [masterKeyG_defn, hk0, hfm, List.nil_append]
   simp only
   obtain ⟨r', p', T', hf, hi, hs⟩ := multi_fold F e fuel mm mws k0 M cks hl [] [] used [] MInv.nil
   rw [hf]
@@ -924,8 +924,8 @@ theorem multiBranch_link (F : FetchFn) (e : Envs) (fuel : Nat) (mkids : List Obj
     rw [← hs', hi.proc]
     unfold survOf
     cases T' <;> rfl
-  rw [h1]
-  unfold multiBlock tmplObjsOf multiTmpl
+  rw [h1, tmplObjsOf_defn]
+  unfold multiBlock multiTmpl
   simp only [Bool.false_eq_true, if_false, h2, List.append_assoc, List.singleton_append]
 
 /-- **C05 (one `.multiple` master child).**  The step of the master loop for a `.multiple` master
